@@ -1,1 +1,296 @@
 //! Hooks of group 'fault' for the /verif machinery.
+//!
+//! * storage fault / crash injector: `storage_point(name)` is consulted by one added line at the
+//!   top of every `IdlSqliteWriteTransaction` mutator and inside `commit()`. The plan is
+//!   thread-local (checks run many cases on many threads in one process); default = no-op.
+//! * pause points: `pause_point(name)` is consulted by added statements in the read / commit
+//!   paths; a thread that did not register a role passes through untouched.
+use crate::prelude::OperationError;
+use std::cell::RefCell;
+use std::collections::VecDeque;
+use std::sync::{Arc, Condvar, Mutex};
+use std::time::{Duration, Instant};
+
+// ------------------------------------------------------------------------------------------
+// storage faults
+
+#[derive(Debug, Clone, Copy, PartialEq, Eq, Default)]
+pub enum Plan {
+    /// do nothing (default)
+    #[default]
+    Off,
+    /// count and record the points reached, never fail
+    Count,
+    /// the n-th point (1-based) reached after arming returns an error; one-shot
+    FailAt(u64),
+    /// the n-th point (1-based) reached after arming kills the process
+    AbortAt(u64),
+}
+
+#[derive(Debug, Clone, Default)]
+pub struct Report {
+    /// number of points reached since arming
+    pub count: u64,
+    /// names of the points reached, in order
+    pub trace: Vec<&'static str>,
+    /// (index, name) of the point that failed
+    pub fired: Option<(u64, &'static str)>,
+}
+
+#[derive(Default)]
+struct FaultState {
+    plan: Plan,
+    report: Report,
+}
+
+thread_local! {
+    static FAULT: RefCell<FaultState> = RefCell::new(FaultState::default());
+}
+
+/// Arm a plan for the calling thread; resets the counter and trace.
+pub fn arm(plan: Plan) {
+    FAULT.with(|f| {
+        let mut f = f.borrow_mut();
+        f.plan = plan;
+        f.report = Report::default();
+    });
+}
+
+/// Disarm and return what happened since `arm`.
+pub fn disarm() -> Report {
+    FAULT.with(|f| {
+        let mut f = f.borrow_mut();
+        f.plan = Plan::Off;
+        std::mem::take(&mut f.report)
+    })
+}
+
+/// Points reached so far (without disarming).
+pub fn count() -> u64 {
+    FAULT.with(|f| f.borrow().report.count)
+}
+
+/// Called by the added lines in the storage layer.
+pub fn storage_point(name: &'static str) -> Result<(), OperationError> {
+    FAULT.with(|f| {
+        let mut f = f.borrow_mut();
+        match f.plan {
+            Plan::Off => Ok(()),
+            Plan::Count => {
+                f.report.count += 1;
+                f.report.trace.push(name);
+                Ok(())
+            }
+            Plan::FailAt(n) => {
+                f.report.count += 1;
+                f.report.trace.push(name);
+                if f.report.count == n && f.report.fired.is_none() {
+                    f.report.fired = Some((n, name));
+                    Err(OperationError::SqliteError)
+                } else {
+                    Ok(())
+                }
+            }
+            Plan::AbortAt(n) => {
+                f.report.count += 1;
+                if f.report.count == n {
+                    // process death: no destructors, no rollback, no flush of anything
+                    std::process::abort();
+                }
+                Ok(())
+            }
+        }
+    })
+}
+
+// ------------------------------------------------------------------------------------------
+// pause points (harness-owned schedules)
+
+/// Shared controller: the scheduler grants steps to roles; a thread with a role blocks at every
+/// pause point until the scheduler grants it one step.
+pub struct Sched {
+    inner: Mutex<SchedInner>,
+    cv: Condvar,
+}
+
+struct SchedInner {
+    /// per role: number of granted, not yet consumed steps
+    grants: [u64; 2],
+    /// per role: Some(name) while the role is parked at a point
+    parked: [Option<&'static str>; 2],
+    /// per role: the role finished (or never blocks again)
+    done: [bool; 2],
+    /// when set every point passes immediately (used to drain after the schedule ends)
+    free_run: bool,
+    /// log of (role, point) in the order the points were *passed*
+    log: VecDeque<(usize, &'static str)>,
+}
+
+thread_local! {
+    static ROLE: RefCell<Option<(usize, Arc<Sched>)>> = const { RefCell::new(None) };
+}
+
+impl Sched {
+    pub fn new() -> Arc<Sched> {
+        Arc::new(Sched {
+            inner: Mutex::new(SchedInner {
+                grants: [0, 0],
+                parked: [None, None],
+                done: [false, false],
+                free_run: false,
+                log: VecDeque::new(),
+            }),
+            cv: Condvar::new(),
+        })
+    }
+
+    /// Bind the calling thread to `role` (0 or 1) of this scheduler.
+    pub fn enter(self: &Arc<Self>, role: usize) {
+        ROLE.with(|r| *r.borrow_mut() = Some((role, self.clone())));
+    }
+
+    /// Unbind the calling thread and mark its role finished.
+    pub fn leave(self: &Arc<Self>, role: usize) {
+        ROLE.with(|r| *r.borrow_mut() = None);
+        let mut g = self.inner.lock().unwrap();
+        g.done[role] = true;
+        g.parked[role] = None;
+        self.cv.notify_all();
+    }
+
+    /// Let `role` pass exactly one pause point; waits until the role is parked at the *next*
+    /// point or has finished. Returns the name of the point it is now parked at (None = finished),
+    /// or Err(()) on timeout (blocked on something the schedule does not control).
+    pub fn step(&self, role: usize, timeout: Duration) -> Result<Option<&'static str>, ()> {
+        let deadline = Instant::now() + timeout;
+        let mut g = self.inner.lock().unwrap();
+        // wait until the role is parked or done
+        loop {
+            if g.done[role] {
+                return Ok(None);
+            }
+            if g.parked[role].is_some() {
+                break;
+            }
+            let now = Instant::now();
+            if now >= deadline {
+                return Err(());
+            }
+            g = self.cv.wait_timeout(g, deadline - now).unwrap().0;
+        }
+        g.grants[role] += 1;
+        g.parked[role] = None;
+        self.cv.notify_all();
+        // wait until it parks again or finishes
+        loop {
+            if g.done[role] {
+                return Ok(None);
+            }
+            if g.grants[role] == 0 {
+                if let Some(n) = g.parked[role] {
+                    return Ok(Some(n));
+                }
+            }
+            let now = Instant::now();
+            if now >= deadline {
+                return Err(());
+            }
+            g = self.cv.wait_timeout(g, deadline - now).unwrap().0;
+        }
+    }
+
+    /// Where the role currently is: Ok(Some(point)) parked, Ok(None) finished, Err = running/blocked.
+    pub fn wait_parked(&self, role: usize, timeout: Duration) -> Result<Option<&'static str>, ()> {
+        let deadline = Instant::now() + timeout;
+        let mut g = self.inner.lock().unwrap();
+        loop {
+            if g.done[role] {
+                return Ok(None);
+            }
+            if let Some(n) = g.parked[role] {
+                return Ok(Some(n));
+            }
+            let now = Instant::now();
+            if now >= deadline {
+                return Err(());
+            }
+            g = self.cv.wait_timeout(g, deadline - now).unwrap().0;
+        }
+    }
+
+    /// Release everything: all further points pass immediately.
+    pub fn free_run(&self) {
+        let mut g = self.inner.lock().unwrap();
+        g.free_run = true;
+        self.cv.notify_all();
+    }
+
+    pub fn take_log(&self) -> Vec<(usize, &'static str)> {
+        self.inner.lock().unwrap().log.drain(..).collect()
+    }
+
+    fn park(&self, role: usize, name: &'static str) {
+        let mut g = self.inner.lock().unwrap();
+        if g.free_run {
+            g.log.push_back((role, name));
+            return;
+        }
+        g.parked[role] = Some(name);
+        self.cv.notify_all();
+        loop {
+            if g.free_run {
+                g.parked[role] = None;
+                break;
+            }
+            if g.grants[role] > 0 && g.parked[role].is_none() {
+                g.grants[role] -= 1;
+                break;
+            }
+            g = self.cv.wait(g).unwrap();
+        }
+        g.log.push_back((role, name));
+        self.cv.notify_all();
+    }
+}
+
+/// Called by the added statements in the read / commit paths.
+pub fn pause_point(name: &'static str) {
+    let bound = ROLE.with(|r| r.borrow().clone());
+    if let Some((role, sched)) = bound {
+        sched.park(role, name);
+    }
+}
+
+// ------------------------------------------------------------------------------------------
+// accessors used by the fault / crash / restart checks
+
+use crate::be::BackendTransaction;
+use crate::prelude::{QueryServerReadTransaction, QueryServerTransaction};
+use kanidm_proto::backup::BackupCompression;
+
+/// The server's own consistency check (`pub(crate)` in the server), rendered as strings.
+pub fn verify(txn: &mut QueryServerReadTransaction<'_>) -> Vec<String> {
+    txn.verify()
+        .into_iter()
+        .filter_map(|r| r.err())
+        .map(|e| format!("{e:?}"))
+        .collect()
+}
+
+/// Persisted maximum change time as this transaction sees it.
+pub fn db_ts_max<'a, T: QueryServerTransaction<'a>>(
+    txn: &mut T,
+) -> Result<Option<Duration>, OperationError>
+where
+    T::BackendTransactionType: BackendTransaction,
+{
+    crate::be::verif::db_ts_max(txn.get_be_txn())
+}
+
+/// Uncompressed backup of the database this read transaction sees.
+pub fn backup_bytes(txn: &mut QueryServerReadTransaction<'_>) -> Result<Vec<u8>, OperationError> {
+    let mut out = Vec::new();
+    txn.get_be_txn()
+        .backup(&mut out, BackupCompression::NoCompression)?;
+    Ok(out)
+}
